@@ -30,6 +30,7 @@ json Chunk::to_json() const
 		json e = json::array({k.s, k.e, k.role});
 		e.push_back(k.vt);
 		e.push_back(k.depth);
+		e.push_back(k.kv ? 1 : 0);
 		ts.push_back(e);
 	}
 	j["toks"] = ts;
@@ -298,6 +299,8 @@ static json gen_opts(Rng &r, const SchemaGen &g, int depth)
 			unsigned f = (unsigned)r.below(g.keystrval ? 7 : 6);
 			if (!g.title_sections && (f == 2 || f == 3 || f == 4))
 				f = 1;
+			if (!g.single_title && f == 4)
+				f = 2;
 			switch (f) {
 			case 0: fl = 0; break;
 			case 1: fl = F_MULTI; break;
@@ -377,6 +380,7 @@ struct Builder {
 	const TextGen &g;
 	Chunk c;
 	int depth = 0;
+	int kv_depth = 0;
 	void raw(const std::string &s) { c.t += s; }
 	void ws() { raw(gen_ws(r, g.multiline)); }
 	void maybe_comment()
@@ -386,7 +390,7 @@ struct Builder {
 			std::string cm = gen_comment(r);
 			size_t s = c.t.size();
 			raw(cm);
-			Tok t{s, c.t.size(), "c", "", depth, false};
+			Tok t{s, c.t.size(), "c", "", depth, false, kv_depth > 0};
 			c.toks.push_back(t);
 			raw(r.chance(1, 2) ? " " : "");
 		}
@@ -395,7 +399,7 @@ struct Builder {
 	{
 		size_t s = c.t.size();
 		raw(text);
-		Tok t{s, c.t.size(), role, vt, depth, false};
+		Tok t{s, c.t.size(), role, vt, depth, false, kv_depth > 0};
 		c.toks.push_back(t);
 	}
 	void sep()
@@ -496,8 +500,12 @@ static void emit_item(Builder &b, const json &o)
 		b.sep();
 		b.tok("{", "p", "secopen");
 		b.depth++;
+		if (fl & F_KEYSTRVAL)
+			b.kv_depth++;
 		b.ws();
 		emit_items(b, o["sub"], (int)r.range(0, 3), (fl & F_KEYSTRVAL) != 0);
+		if (fl & F_KEYSTRVAL)
+			b.kv_depth--;
 		b.depth--;
 		b.tok("}", "p", "secclose");
 		return;
